@@ -211,10 +211,11 @@ class Protocol(Contract):
     patch_classes = (defer.Deferred,)
     inputs = dict(scenario=OneOf("start-now", "start-later", "complete-running", "complete-stopped", "fail", "stop-waiting",
                                  "stop-in-call", "reset"),
-                  interval=Real(small=[0.25, 1.0]), now=Real(small=[0.0, 1.25]))
+                  interval=Real(small=[0.25, 1.0]), now=Real(small=[0.0, 1.25]),
+                  elapsed=Real(small=[0.0, 0.3]))  # time the function's Deferred takes to fire (seeded change C10-2)
 
     def requires(self, i):
-        return i.interval > 0
+        return band(i.interval > 0, i.elapsed >= 0, i.now >= 0)
 
     def make_deferred(self):
         return self.make(defer.Deferred, "startd", called=False, callbacks=[])
@@ -235,6 +236,7 @@ class Protocol(Contract):
             if sc in ("complete-running", "complete-stopped", "fail", "stop-in-call"):
                 call(lc, None)  # the scheduled call fires: LoopingCall.__call__
                 fd = ctx().ghost["fd"]
+                ctx().ghost["now"] = i.now + i.elapsed  # the clock moves on while the function's Deferred is pending
                 if sc == "stop-in-call":
                     call(lc, "stop")  # stop() while the function's Deferred is pending
                     return call(fd.cbs[0], None, "result")
@@ -261,7 +263,12 @@ class Protocol(Contract):
             return band(names.count("f") == 0, len(later) == 1, later[0].args[0] == S.i.interval, not fired,
                         lc.running is True)
         if sc == "complete-running":
-            return band(names.count("f") == 1, len(later) == 1, names.index("f") < names.index("callLater"), not fired)
+            if len(later) != 1:
+                return False
+            # the next call is scheduled for the first boundary starttime + k*interval strictly after the *completion* time
+            q, r = quot_rem(S.i.now + S.i.elapsed, S.i.interval)  # starttime is 0.0 in this scenario
+            return band(names.count("f") == 1, names.index("f") < names.index("callLater"), not fired,
+                        later[0].args[0] == S.i.interval - r)
         if sc in ("complete-stopped", "stop-in-call"):
             return band(not later, len(fired) == 1, fired[0].name == "start-deferred-fired", fired[0].target is S.ghost["d"],
                         lc._deferred is None, lc.running is False)
